@@ -65,3 +65,39 @@ Proof.
   - destruct evs; [|discriminate]. cbn [last].
     destruct (recycles k (outcome_of e) && negb pinned); inversion H; subst; reflexivity.
 Qed.
+
+(** * Cluster batch buffers *)
+
+Lemma member_replied_not_in_flight o : member_replied o = true -> leaves_in_flight o = false.
+Proof. destruct o; cbn; intros H; try reflexivity; discriminate. Qed.
+
+Lemma batch_aux_attempts : forall members fl ar rest,
+  batch_no_early_aux fl ar (map LAttempt members ++ rest) =
+  batch_no_early_aux (fl || existsb leaves_in_flight members) (ar && forallb member_replied members) rest.
+Proof.
+  induction members as [|o ms IH]; intros fl ar rest; cbn [map app batch_no_early_aux existsb forallb].
+  - now rewrite orb_false_r, andb_true_r.
+  - rewrite IH. now rewrite orb_assoc, andb_assoc.
+Qed.
+
+Lemma clean_not_in_flight : forall members, batch_clean members = true -> existsb leaves_in_flight members = false.
+Proof.
+  unfold batch_clean. induction members as [|o ms IH]; intros H; cbn in *; [reflexivity|].
+  apply andb_prop in H. destruct H as [Ho Hm]. now rewrite (member_replied_not_in_flight _ Ho), IH.
+Qed.
+
+Theorem batch_no_early members : batch_no_early_recycle (run_batch members) = true.
+Proof.
+  unfold batch_no_early_recycle, run_batch. rewrite batch_aux_attempts. cbn [orb andb].
+  destruct (batch_clean members) eqn:E.
+  - rewrite (clean_not_in_flight _ E). unfold batch_clean in E. rewrite E. reflexivity.
+  - reflexivity.
+Qed.
+
+Theorem batch_recycled_iff members : recycled (run_batch members) = batch_clean members.
+Proof.
+  unfold run_batch, recycled. rewrite existsb_app.
+  assert (H : existsb (fun e => match e with LRecycle => true | _ => false end) (map LAttempt members) = false).
+  { induction members as [|o ms IH]; cbn; [reflexivity|exact IH]. }
+  rewrite H. destruct (batch_clean members); reflexivity.
+Qed.
